@@ -2,6 +2,7 @@ package vm_color_indent
 
 import (
 	"fmt"
+	"os"
 
 	"github.com/goccy/go-json/internal/encoder"
 )
@@ -17,6 +18,9 @@ func DebugRun(ctx *encoder.RuntimeContext, b []byte, codeSet *encoder.OpcodeSet)
 	defer func() {
 		if err := recover(); err != nil {
 			w := ctx.Option.DebugOut
+			if w == nil {
+				w = os.Stdout
+			}
 			fmt.Fprintln(w, "=============[DEBUG]===============")
 			fmt.Fprintln(w, "* [TYPE]")
 			fmt.Fprintln(w, codeSet.Type)
